@@ -75,7 +75,11 @@ Section C10.
   (* --- the batches themselves --- *)
 
   (* each batch equals selecting its rows from the source frame; the epoch as a
-     whole delivers the rows selected by the sampler's order, with the batch sizes above *)
+     whole delivers the rows selected by the sampler's order, with the batch sizes above.
+     NOTE: the first conjunct restates the definition of loader_epoch (collate_fn(index) =
+     tensor_frame[index] as written); that the real batches are these selections is OBSERVED
+     (oracle key batch-content:*, cell-by-cell against independently known rows) and checked
+     by the correspondence on every batch of every run. *)
   Theorem c10_batches_are_row_selections : forall (ld : loader R) bats,
     loader_epoch ld = Some bats ->
     Forall2 (fun idx b => tgather (ld_tensor_frame ld) idx = Some b) (loader_index_batches ld) bats /\
@@ -129,7 +133,13 @@ Section C10.
     run_loader convert df_len (SrcFrame (convert df)) kw.
   Proof. intros. unfold run_loader. rewrite init_dataset_as_frame by assumption. reflexivity. Qed.
 
-  (* a user-supplied collate function cannot replace the row-selection collation *)
+  (* a user-supplied collate function cannot replace the row-selection collation.
+     NOTE: this holds of the model by construction (no model function reads kw_collate_fn,
+     mirroring `kwargs.pop('collate_fn', None)`), so it is a statement about the model, not a
+     theorem about loader.py.  For the real class the clause is OBSERVED on every run by
+     harness/c10.py: a recording collate_fn is passed to ~30 % of the generated loaders and
+     must never be called (oracle keys collate-called / collate-replaced), and the model's
+     batches are compared with the real ones by the correspondence. *)
   Theorem c10_user_collate_ignored : forall src bs s d (c1 c2 : option (collate R)),
     run_loader convert df_len src {| kw_batch_size := bs; kw_sampling := s; kw_drop_last := d; kw_collate_fn := c1 |} =
     run_loader convert df_len src {| kw_batch_size := bs; kw_sampling := s; kw_drop_last := d; kw_collate_fn := c2 |}.
